@@ -739,4 +739,52 @@ example : runLoop (fun s : AlgSt Nat => Gen.doneAltMin s.iter (-3)) (algUpdate (
     ⟨Gen.initIterAltMin, 0⟩ 0 = (⟨0, 0⟩, 0, true) := by
   simp [runLoop, Gen.doneAltMin, Gen.initIterAltMin]
 
+/-! ### the normal form of `_done` (harness/translate/norm_alg.py `done_expr`)
+
+Before `Gen/AlgDone.lean` is written, the translator brings the body of every `_done` to one boolean expression:
+`if c: return c / True  else: return e` becomes `c or e`, `if c: return e else: return c / False` becomes `c and e`,
+a negated guard swaps the branches, `not` is pushed inwards (De Morgan; comparisons are flipped under `not` only
+between INTEGER operands — for floats `not (r > t)` and `r <= t` differ on NaN and are kept apart), nested `or` / `and`
+are flattened and their operands sorted, comparisons are oriented.  Each rewrite is one of the identities below, so
+two spellings with the same normal form denote the same boolean function of the attributes read (all terms in the
+accepted subset are attribute reads, constants and comparisons: no effects, so short-circuiting is unobservable). -/
+/-- every rewrite of the `_done` normal form preserves the value -/
+theorem done_nf_sound :
+    (∀ c e : Bool, (if c then c else e) = (c || e) ∧ (if c then true else e) = (c || e)) ∧
+    (∀ c e : Bool, (if c then e else c) = (c && e) ∧ (if c then e else false) = (c && e)) ∧
+    (∀ c e : Bool, (if c then false else e) = (!c && e) ∧ (if c then e else true) = (!c || e)) ∧
+    (∀ c : Bool, (if c then true else false) = c ∧ (if c then false else true) = !c) ∧
+    (∀ c a b : Bool, (if !c then a else b) = (if c then b else a)) ∧
+    (∀ a b : Bool, (!(a || b)) = (!a && !b) ∧ (!(a && b)) = (!a || !b) ∧ (!!a) = a) ∧
+    (∀ a b c : Bool, (a || (b || c)) = (a || b || c) ∧ (a && (b && c)) = (a && b && c)) ∧
+    (∀ a b : Bool, (a || b) = (b || a) ∧ (a && b) = (b && a) ∧ (a || a) = a ∧ (a && a) = a) ∧
+    (∀ i m : Int, (!decide (i < m)) = decide (i ≥ m) ∧ (!decide (i ≤ m)) = decide (i > m) ∧
+      (!decide (i ≥ m)) = decide (i < m) ∧ (!decide (i > m)) = decide (i ≤ m)) ∧
+    (∀ i m : Int, decide (i ≥ m) = decide (m ≤ i) ∧ decide (i > m) = decide (m < i) ∧ decide (i = m) = decide (m = i)) ∧
+    (∀ r t : Rat, decide (r ≥ t) = decide (t ≤ r) ∧ decide (r > t) = decide (t < r) ∧ decide (r = t) = decide (t = r)) := by
+  refine ⟨?_, ?_, ?_, ?_, ?_, ?_, ?_, ?_, ?_, ?_, ?_⟩
+  · intro c e; cases c <;> simp
+  · intro c e; cases c <;> simp
+  · intro c e; cases c <;> simp
+  · intro c; cases c <;> simp
+  · intro c a b; cases c <;> simp
+  · intro a b; cases a <;> cases b <;> simp
+  · intro a b c; cases a <;> cases b <;> cases c <;> simp
+  · intro a b; cases a <;> cases b <;> simp
+  · intro i m
+    refine ⟨?_, ?_, ?_, ?_⟩ <;> (rw [Bool.eq_iff_iff]; simp)
+  · intro i m
+    refine ⟨rfl, rfl, ?_⟩
+    rw [Bool.eq_iff_iff]; simp [eq_comm]
+  · intro r t
+    refine ⟨rfl, rfl, ?_⟩
+    rw [Bool.eq_iff_iff]; simp [eq_comm]
+
+/-- the three spellings the reviewers used for `ConjugateGradient._done` (or-chain; if/elif/else returning the operand;
+    negated guard with the branches swapped) are the same function -/
+example (i M : Int) (fl : Bool) (r t : Rat) :
+    (if decide (i ≥ M) then decide (i ≥ M) else if fl then fl else decide (r ≤ t)) = Gen.doneConjugateGradient i M fl r t ∧
+    (if decide (i < M) then (fl || decide (r ≤ t)) else true) = Gen.doneConjugateGradient i M fl r t := by
+  constructor <;> (simp only [Gen.doneConjugateGradient]; by_cases h : i < M <;> cases fl <;> simp [h] <;> omega)
+
 end SigpyVerif.C15
